@@ -5,6 +5,7 @@
 mod common;
 mod c02;
 mod c04;
+mod c05;
 mod cpr_ref;
 mod c13;
 mod c14;
@@ -90,6 +91,7 @@ fn dispatch(id: &str, ctx: &Ctx, rep: &Report) {
     match id {
         "C02" => c02::run(ctx, rep),
         "C04" => c04::run(ctx, rep),
+        "C05" => c05::run(ctx, rep),
         "C13" => c13::run(ctx, rep),
         "C14" => c14::run(ctx, rep),
         "C18" => c18::run(ctx, rep),
@@ -104,6 +106,7 @@ fn dispatch_replay(id: &str, w: &serde_json::Value, rep: &Report) {
     match id {
         "C02" => c02::replay(w, rep),
         "C04" => c04::replay(w, rep),
+        "C05" => c05::replay(w, rep),
         "C13" => c13::replay(w, rep),
         "C14" => c14::replay(w, rep),
         "C18" => c18::replay(w, rep),
